@@ -71,6 +71,11 @@ extern struct Mutex *g_dmutex;     /* the mutex of the dispatcher under proof (g
 /* (a havocked _Bool may hold any bit pattern: the stubs pin their ghost verdicts to 0 / 1) */
 #define B01(b) ((b) == 0 || (b) == 1)
 #define CL_LOG(OP) B01(g_rb) && g_n == __CPROVER_old(g_n) + 1 && g_op == (OP) && g_cl == self && g_seq == __CPROVER_old(g_seq) + 1
+/* a local COPY of a callback list is another list (a snapshot): what is done on it is logged on IT (g_cl == the copy),
+ * so an operation the contracts expect on the member list is not found there */
+#define CONTRACT_CLT_ctor_copy __CPROVER_assigns(*self, LOG) __CPROVER_ensures(CL_LOG(10) && g_hp == (Node *)0 && g_fn == (void *)other)
+#define CONTRACT_CLT_ctor_move __CPROVER_assigns(*self, LOG) __CPROVER_ensures(CL_LOG(11) && g_fn == (void *)other)
+#define CONTRACT_CLT_dtor __CPROVER_requires(1) __CPROVER_assigns() __CPROVER_ensures(1)
 #define CONTRACT_CLT_append  __CPROVER_assigns(LOG) __CPROVER_ensures(CL_LOG(1) && g_cbid == a0->id && __CPROVER_return_value.p == g_rh)
 #define CONTRACT_CLT_prepend __CPROVER_assigns(LOG) __CPROVER_ensures(CL_LOG(2) && g_cbid == a0->id && __CPROVER_return_value.p == g_rh)
 #define CONTRACT_CLT_insert  __CPROVER_assigns(LOG) __CPROVER_ensures(CL_LOG(3) && g_cbid == a0->id && g_hp == a1->p && __CPROVER_return_value.p == g_rh)
